@@ -1270,6 +1270,35 @@ def run_series(case):
             polls[self.ix] += 1
             if self.items:
                 return self.items.pop(0)
+            st = stop_spec()
+            if st and st['at'] == 'late' and st['pipe'] == self.ix and not holder.get('late'):
+                # the source is exhausted: the stop request arrives a few loop steps later, around the moment the
+                # pipeline winds down (state stopping / stopped, process() not yet returned - or just returned)
+                holder['late'] = True
+                delay = st.get('steps', 0)
+
+                def later(k=delay):
+                    if k > 0:
+                        holder['loop'].call_soon(later, k - 1)
+                    else:
+                        do_stop()
+                holder['loop'].call_soon(later)
+
+    def stop_spec():
+        if case.get('stop'):
+            return case['stop']
+        if case.get('stop_during') is not None:
+            return {'at': 'task', 'pipe': case['stop_during']}
+        return None
+
+    def do_stop():
+        app = holder['app']
+        if 'stop_at' not in holder:
+            cur = app._current_pipeline
+            holder['stop_at'] = pipes.index(cur) if cur in pipes else None
+            holder['stop_midway'] = bool(cur is not None and cur._state.value == 'running')
+            holder['begins_at_stop'] = len(begins)
+        app.stop()
 
     class Record(ItemTask):
         def __init__(self, ix, t):
@@ -1280,11 +1309,13 @@ def run_series(case):
             first = item.endswith('.0') and self.t == 0
             if first and self.ix == 0:
                 if case['set_conc'] == 'during':
+                    holder['conc_set'] = True
                     holder['series'].concurrency = case['conc']
                 if case['read'] == 'during':
                     holder['seen'] = len(tuple(holder['series'].pipelines))
-            if first and case['stop_during'] == self.ix:
-                holder['app'].stop()
+            st = stop_spec()
+            if first and st and st['at'] == 'task' and st['pipe'] == self.ix:
+                do_stop()
             yield from asyncio.sleep(0)
             if first and case['fail_in'] == self.ix:
                 raise TaskError('pipeline %d' % self.ix)
@@ -1308,21 +1339,64 @@ def run_series(case):
         holder['seen'] = len(tuple(series.pipelines))
     app = Application(series)
     holder['app'] = app
-    app.event_dispatcher.add_listener(app.Event.pipeline_begin, lambda p: begins.append(pipes.index(p)))
+
+    def on_begin(p):
+        begins.append(pipes.index(p))
+        st = stop_spec()
+        if st and st['at'] == 'begin' and st['pipe'] == pipes.index(p):
+            do_stop()
+
+    def on_end(p):
+        st = stop_spec()
+        if st and st['at'] == 'end' and st['pipe'] == pipes.index(p):
+            do_stop()
+    app.event_dispatcher.add_listener(app.Event.pipeline_begin, on_begin)
+    app.event_dispatcher.add_listener(app.Event.pipeline_end, on_end)
     loop = sched.new_det_loop(case['seed'])
+    holder['loop'] = loop
     saved = os.dup(2)
     devnull = os.open(os.devnull, os.O_WRONLY)
     try:
         os.dup2(devnull, 2)
-        done, task = loop.run_until_quiescent(app.run(), max_steps=200000)
         exit_code, error = None, None
-        if done:
+        if case.get('via') == 'run_sync':
+            # Application.run_sync() as main() calls it, on a private loop; a loop that has nothing left to do while
+            # run_sync() is still waiting is a hang (reported, not suffered)
+            class Dry(BaseException):
+                pass
+            inner = loop._run_once
+            count = {'n': 0}
+
+            def guarded():
+                count['n'] += 1
+                if (loop.idle() and not loop._stopping) or count['n'] > 200000:
+                    raise Dry()
+                inner()
+            loop._run_once = guarded
+            done = True
             try:
-                exit_code = task.result()
+                exit_code = app.run_sync()
+            except Dry:
+                done = False
             except BaseException as e:     # noqa
                 error = type(e).__name__
-        for t in asyncio.all_tasks(loop):
-            t.cancel()
+            for obj in list(asyncio.all_tasks(loop)):
+                # tasks the application left behind (run() re-raises a task error at once): nobody will run them on
+                # the closed loop; close them quietly instead of at garbage collection
+                obj._log_destroy_pending = False
+                try:
+                    obj.get_coro().close()
+                except BaseException:      # noqa
+                    pass
+        else:
+            done, task = loop.run_until_quiescent(app.run(), max_steps=200000)
+            if done:
+                try:
+                    exit_code = task.result()
+                except BaseException as e:     # noqa
+                    error = type(e).__name__
+            for t in asyncio.all_tasks(loop):
+                t.cancel()
     finally:
         os.dup2(saved, 2)
         os.close(saved)
@@ -1330,14 +1404,20 @@ def run_series(case):
         sched.close_loop(loop)
     return {'begins': begins, 'log': log, 'polls': polls, 'left': [len(p._producer._item_source.items) for p in pipes],
             'exit': exit_code, 'error': error, 'hung': not done, 'seen': holder.get('seen'),
-            'concs': [p.concurrency for p in pipes], 'after': len(tuple(series.pipelines))}
+            'concs': [p.concurrency for p in pipes], 'after': len(tuple(series.pipelines)),
+            'conc_set': bool(holder.get('conc_set')) or case['set_conc'] == 'before',
+            'stop_at': holder.get('stop_at'), 'stop_midway': holder.get('stop_midway'),
+            'begins_at_stop': holder.get('begins_at_stop')}
 
 
 def series_case(ctx, case):
     r = run_series(case)
     specs = case['pipes']
     spec = '.'.join('w' + ('s' if sk else 'n') for (_, _, sk) in specs)
-    sd = '-' if case['stop_during'] is None else str(case['stop_during'])
+    # the stop position is what was observed: the pipeline that was current when Application.stop() was called
+    # (from a task, from a pipeline_begin / pipeline_end listener, or some loop steps after the source ran dry)
+    stop_at = r['stop_at']
+    sd = '-' if stop_at is None else str(stop_at)
     fi = '-' if case['fail_in'] is None else str(case['fail_in'])
     rep = ctx.model.ask(['pipeline app %s %s %s' % (spec, sd, fi)])[0]
     expected = [int(x) for x in rep.split('.')] if rep else []
@@ -1345,7 +1425,11 @@ def series_case(ctx, case):
         ctx.disagree('app-run', dict(case, spec=spec), rep, '.'.join(str(b) for b in r['begins']))
     # direct oracle (independent of the model)
     if r['hung']:
-        ctx.fail('hang', 'application', case, 'Application.run() over the scripted series did not complete')
+        if case.get('via') == 'run_sync':
+            ctx.fail('hang', 'Application.run_sync', case,
+                     'Application.run_sync() did not return: the loop ran dry while it was still waiting (begun: %r)' % (r['begins'],))
+        else:
+            ctx.fail('hang', 'application', case, 'Application.run() over the scripted series did not complete')
     else:
         n = len(specs)
         must = []           # pipelines that have to be processed
@@ -1356,8 +1440,15 @@ def series_case(ctx, case):
             must.append(ix)
             if case['fail_in'] == ix:
                 break
-            if case['stop_during'] == ix:
+            if stop_at == ix:
                 stopping = True
+        for ix in range(n):
+            if ix not in must and ix in r['begins'] and (case['fail_in'] is None or ix < case['fail_in']):
+                ctx.fail('work-after-stop', 'Application.stop', case,
+                         'Application.stop() was called while pipeline %r was current (%s), but the skippable pipeline %d '
+                         'was begun afterwards and took %d item(s): the stop request was lost'
+                         % (stop_at, (case.get('stop') or {}).get('at', 'task'), ix, r['polls'][ix]))
+                break
         for ix in must:
             if r['begins'].count(ix) != 1:
                 ctx.fail('pipeline-not-run', 'PipelineSeries', case,
@@ -1365,7 +1456,7 @@ def series_case(ctx, case):
                          'its source was polled %d times, %d of its items are left'
                          % (ix, n, case['kind'], r['begins'].count(ix), r['begins'], r['exit'], r['polls'][ix], r['left'][ix]))
                 break
-            unstopped = case['stop_during'] != ix and case['fail_in'] != ix
+            unstopped = not (stop_at == ix and r['stop_midway']) and case['fail_in'] != ix
             if unstopped:
                 done_items = {it for (pix, t, it) in r['log'] if pix == ix and t == specs[ix][1] - 1}
                 if r['left'][ix] or len(done_items) != specs[ix][0]:
@@ -1377,7 +1468,7 @@ def series_case(ctx, case):
             ctx.fail('error-swallowed', 'Application.run', case, 'a task of pipeline %d raised but the exit status is 0' % case['fail_in'])
         if case['fail_in'] is None and r['exit'] != 0:
             ctx.fail('spurious-error', 'Application.run', case, 'exit status %r (%r) although nothing failed' % (r['exit'], r['error']))
-        if case['set_conc'] != 'never' and (case['set_conc'] == 'before' or 0 in r['begins']):
+        if case['set_conc'] != 'never' and r['conc_set']:
             for ix in case['conc_pipes']:
                 if r['concs'][ix] != case['conc']:
                     ctx.fail('concurrency-not-applied', 'PipelineSeries.concurrency', case,
@@ -1389,8 +1480,11 @@ def series_case(ctx, case):
                      % (r['seen'], case['read'], r['after'], n))
     tags = ['series:' + case['kind'], 'series:set-conc-' + case['set_conc'], 'series:read-' + case['read'],
             'series:exit=%s' % r['exit']]
-    if case['stop_during'] is not None:
-        tags.append('series:stop')
+    if stop_at is not None:
+        tags.append('series:stop-' + (case.get('stop') or {'at': 'task'})['at'])
+        if not r['stop_midway']:
+            tags.append('series:stop-while-pipeline-not-running')
+    tags.append('series:via-' + case.get('via', 'run'))
     if case['fail_in'] is not None:
         tags.append('series:task-raises')
     ctx.case(('series', json.dumps(case, sort_keys=True)), nontrivial=True, tags=tags)
@@ -1407,10 +1501,17 @@ def series_stream(ctx, rng, count):
                 'read': rng.choice(['never', 'never', 'before', 'during']),
                 'stop_during': None, 'fail_in': None, 'seed': rng.randrange(1 << 20)}
         r = rng.random()
-        if r < 0.2:
-            case['stop_during'] = rng.randrange(n)
-        elif r < 0.35:
+        if r < 0.4:
+            case['stop'] = {'at': rng.choice(['task', 'begin', 'end', 'end', 'late', 'late']), 'pipe': rng.randrange(n),
+                            'steps': rng.choice([0, 1, 2, 3, 5])}
+            # make a skippable pipeline with items follow, so that a lost stop shows
+            for j in range(case['stop']['pipe'] + 1, n - 1):
+                pipes[j][2] = True
+        elif r < 0.6:
             case['fail_in'] = rng.randrange(n)
+            if pipes[case['fail_in']][0] < 2:
+                pipes[case['fail_in']][0] = rng.choice([2, 3])     # work remains when the task raises
+        case['via'] = 'run_sync' if ix % 2 else 'run'
         res = series_case(ctx, case)
         if ix < 1:
             ctx.sample(dict(case, begins=res['begins'], exit=res['exit']))
